@@ -63,12 +63,86 @@ def doOwed (a : Json) : Except String Json := do
   let d ← getBig a "d"
   pure <| J.obj [("owed", J.nat (owed p (d : Rat)))]
 
+/-! ### Sync histories -/
+
+def optNat (j : Json) (k : String) : Except String (Option Nat) :=
+  match J.optObj j k with
+  | none => pure none
+  | some v => do pure (some (← v.getNat?))
+
+def optPair (j : Json) (k : String) : Except String (Option (Nat × Nat)) :=
+  match J.optObj j k with
+  | none => pure none
+  | some v => do
+    let a ← v.getArr?
+    if h : a.size = 2 then pure (some (← a[0].getNat?, ← a[1].getNat?)) else throw s!"{k}: expected [qps, burst]"
+
+def decodeSchema (j : Json) : Except String (Nat × Schema) := do
+  let n ← J.getNat j "name"
+  let ex := (J.getBool j "exempt").toOption.getD false
+  pure (n, { exempt := ex, mi := ← optNat j "mi", gmi := ← optNat j "gmi", tb := ← optPair j "tb",
+             gtb := ← optPair j "gtb", strategy := (J.getNat j "strategy").toOption.getD 0 })
+
+def encodeSeen : Seen → Json
+  | .none => J.obj [("kind", Json.str "none")]
+  | .exempt => J.obj [("kind", Json.str "exempt")]
+  | .mi m => J.obj [("kind", Json.str "mi"), ("a", J.nat m)]
+  | .tb q b => J.obj [("kind", Json.str "tb"), ("a", J.nat q), ("b", J.nat b)]
+
+def decodeSeen (j : Json) : Except String Seen := do
+  match ← J.getStr j "kind" with
+  | "none" => pure .none
+  | "exempt" => pure .exempt
+  | "mi" => pure (.mi (← J.getNat j "a"))
+  | "tb" => pure (.tb (← J.getNat j "a") (← J.getNat j "b"))
+  | k => throw s!"unknown limiter kind {k}"
+
+/-- one op of a history: `{"sync":[schema…]}`, `{"acq":name,"t":"<ns>"}` or `{"reset":"remote"|"local"}` -/
+def histStep (u : UL F.FBucket) (j : Json) : Except String (UL F.FBucket × Json) :=
+  match j.getObjVal? "sync" with
+  | .ok v => do
+    let spec ← (← v.getArr?).toList.mapM decodeSchema
+    match u.sync floatOps spec with
+    | none => pure (u, J.obj [("panic", J.bool true)])
+    | some u' =>
+      pure (u', J.obj [("seen", Json.arr (spec.map fun x => encodeSeen (see floatOps (u'.load x.1))).toArray),
+                       ("legal", J.bool (specLegal spec))])
+  | .error _ =>
+    match j.getObjVal? "reset" with
+    | .ok _ => pure (u, J.obj [("reset", J.bool true)])   -- ResetLimiter: the local limiter stays in force (no client sets)
+    | .error _ => do
+    let n ← J.getNat j "acq"
+    let t ← getBig j "t"
+    match u.acquireWith (fun b => b.step (.acquire t)) n with
+    | none => pure (u, J.obj [("ok", Json.null)])
+    | some r => pure (r.2, J.obj [("ok", J.bool r.1)])
+
+def histLoop : UL F.FBucket → List Json → List Json → Except String (List Json)
+  | _, [], acc => pure acc.reverse
+  | u, j :: rest, acc => do
+    let r ← histStep u j
+    histLoop r.1 rest (r.2 :: acc)
+
+/-- `C06.hist {ops}`: the model of `UpstreamLimiter.Sync` (which limiter serves each name, with which parameters)
+    with Float-twin buckets: per sync what is in force for every schema of the spec, per acquire the answer. -/
+def doHist (a : Json) : Except String Json := do
+  let ops ← J.getArr a "ops"
+  pure (Json.arr (← histLoop UL.init ops.toList []).toArray)
+
+/-- `C06.inforce {schema, seen}`: the clause `inForceOK` on what the real code shows. -/
+def doInForce (a : Json) : Except String Json := do
+  let s ← decodeSchema (← J.getObj a "schema")
+  let o ← decodeSeen (← J.getObj a "seen")
+  pure <| J.obj [("ok", J.bool (inForceOK s.2 o)), ("legal", J.bool (schemaLegal s.2))]
+
 def handle (m : String) (a : Json) : Option (Except String Json) :=
   match m with
   | "script" => some (doScript a)
   | "judge" => some (doJudge a)
   | "window" => some (doWindow a)
   | "owed" => some (doOwed a)
+  | "hist" => some (doHist a)
+  | "inforce" => some (doInForce a)
   | _ => none
 
 end KG.Driver.C06
